@@ -689,8 +689,20 @@ def check_validator(ctx):
                 return node
         return None
 
+    COERCE = ('str', 'int', 'float', 'lower', 'upper', 'strip', 'repr',
+              'casefold', 'title')
+
+    def coerces(tt):
+        """names are compared as they are stored: a test that first turns
+        one side into a string (or number, or lower case) accepts a tree
+        whose child lists do not hold the node names themselves"""
+        return any(isinstance(x, tuple) and x and x[0] == 'call'
+                   and T.call_name(x) in COERCE for x in T.subterms(tt))
+
     def p_missing_parent(tt):
         # child not in <union of the parents' child lists>
+        if coerces(tt):
+            return None
         if tt[0] == 'cmp' and tt[1] == ('NotIn',):
             right = tt[3][0]
             if T.has_call(right, 'union') or T.has_call(right, 'update') \
@@ -700,6 +712,8 @@ def check_validator(ctx):
 
     def p_child_exists(tt):
         # this_child not in set(keys of child level)
+        if coerces(tt):
+            return None
         if tt[0] == 'cmp' and tt[1] == ('NotIn',):
             left = tt[2]
             right = tt[3][0]
